@@ -178,6 +178,43 @@ fn hostile_program(rng: &mut Prng) -> (Module, &'static str) {
         // loops that never end by themselves, through every route the interpreter can be re-entered by
         return crate::e_budget::nonterminating(rng);
     }
+    if rng.chance(1, 10) {
+        // the library's ordering functions over values that are not totally ordered (nil, strings, tables, numbers,
+        // NaN, a table that contains itself), in tables large enough for every sorting strategy
+        let n = *rng.pick(&[3usize, 8, 21, 24, 28, 32, 33, 40, 50, 64, 130]);
+        // the ordering function runs once at the end, or after every append (every size up to n)
+        let every_size = n <= 50 && rng.chance(1, 2);
+        let mk_call = |rng: &mut Prng| -> Card {
+            let f = *rng.pick(&["std.sorted", "std.sorted", "std.min", "std.max", "std.sorted_by_key", "std.min_by_key", "std.max_by_key"]);
+            if f.ends_with("by_key") {
+                call(f, vec![closure(&["k", "v"], vec![un("ret", read("v"))]), read("t")])
+            } else {
+                call(f, vec![read("t")])
+            }
+        };
+        let mut cards = vec![set("_", nil()), set("r", nil()), set("t", CardBody::CreateTable.into()), set("self_ref", CardBody::CreateTable.into())];
+        cards.push(bin("append", read("self_ref"), read("self_ref")));
+        for _ in 0..n {
+            let v = match rng.below(9) {
+                0 => nil(),
+                1 => strc(*rng.pick(&["", "a", "ab", "ba", "abc"])),
+                2 => int(rng.range(-3, 4)),
+                3 => real(rng.range(-6, 6) as f64 / 2.0),
+                4 => bin("div", real(0.0), real(0.0)),
+                5 => CardBody::CreateTable.into(),
+                6 => read("self_ref"),
+                7 => native("pair", vec![int(1), nil()]),
+                _ => int(rng.range(0, 2)),
+            };
+            cards.push(bin("append", v, read("t")));
+            if every_size {
+                cards.push(set("r", mk_call(rng)));
+            }
+        }
+        cards.push(set("r", mk_call(rng)));
+        cards.push(discard(un("len", read("r"))));
+        return (with_main(Module::default(), cards), "ordering-of-unordered-values");
+    }
     match rng.below(12) {
         0 => {
             // self-referencing table, compared / hashed / used as key / printed
